@@ -31,6 +31,17 @@ def sx(v, bits):
 def gen_interval(rng, size, hints=True):
     bits = size * 8
     lo, hi = -(1 << (bits - 1)), (1 << (bits - 1)) - 1
+    if size <= 8 and rng.random() < 0.15:
+        # small grid around zero (both signs, small strides): sign/stride interplay
+        iv = grid_interval(rng, size)
+        if hints and rng.random() < 0.3:
+            s0, e0 = int(iv["start"], 16), int(iv["end"], 16)
+            s0 = s0 - (1 << bits) if s0 >> (bits - 1) else s0
+            e0 = e0 - (1 << bits) if e0 >> (bits - 1) else e0
+            iv["lower"] = "%x" % ((s0 - rng.randrange(1, 9)) & M(bits))
+            iv["upper"] = "%x" % ((e0 + rng.randrange(1, 9)) & M(bits))
+            iv["delay"] = rng.choice([0, 1, 5])
+        return iv
     anchors = [lo, lo + 1, -2, -1, 0, 1, 2, hi - 1, hi, -128 if size > 1 else -8, 127 if size > 1 else 8, rng.randrange(lo, hi + 1), rng.randrange(-300, 300) if size > 1 else rng.randrange(-20, 20)]
     start = max(lo, min(hi, rng.choice(anchors)))
     kind = rng.random()
